@@ -182,20 +182,37 @@ Definition element_name (v : N) : option string :=
 (* symbol by atomic number (used by the abstract reading of a card) *)
 Definition symbol (z : N) : string := match element_name z with Some s => s | None => "?" end.
 
+(* Python's int() on a token of a card (ASCII, no blank inside): an optional
+   sign, then decimal digits with single underscores between digits *)
+Fixpoint py_digits (s : string) (prev_digit : bool) (acc : N) : option N :=
+  match s with
+  | EmptyString => if prev_digit then Some acc else None
+  | String c r =>
+      if is_digit c then py_digits r true (acc * 10 + digit_val c)%N
+      else if Ascii.eqb c "_" && prev_digit then py_digits r false acc
+      else None
+  end.
+Definition py_int (s : string) : option Z :=
+  match s with
+  | String "+" r => option_map Z.of_N (py_digits r false 0%N)
+  | String "-" r => option_map (fun n => (- Z.of_N n)%Z) (py_digits r false 0%N)
+  | _ => option_map Z.of_N (py_digits s false 0%N)
+  end.
+
 (* convert_isotope: (enum value, str(int(last three characters))) *)
 Definition convert_isotope (iso : string) : res (N * string) :=
   let iso := take_until "." iso in
   let n := length iso in
   let tail := if Nat.leb n 3 then iso else take_last 3 iso in
   let head := if Nat.leb n 3 then "" else drop_last 3 iso in
-  match int_of_string tail with
+  match py_int tail with
   | None => Err EValue
   | Some a =>
-      match int_of_string head with
+      match py_int head with
       | None => Err EValue
-      | Some z => match atomic_value (dec z) with
+      | Some z => match atomic_value (dec_Z z) with
                   | None => Err EAttribute
-                  | Some v => Ok (v, dec a)
+                  | Some v => Ok (v, dec_Z a)
                   end
       end
   end.
